@@ -276,6 +276,7 @@ func (v *FnVerifier) reset() {
 	v.pending = nil
 	v.ceils = nil
 	v.opqDeps, v.opqDone, v.rec = nil, nil, nil
+	v.siteSeen, v.assertSites = nil, map[int]bool{}
 	v.now0 = v.ctx.Const("now!0", SInt)
 	v.entry = &State{arr: map[string]Term{}, now: v.now0}
 }
@@ -338,6 +339,12 @@ func (e *Engine) VerifyFunc(key, prop string) (res *FuncResult) {
 	for ord := range fc.Loops {
 		if !v.loopsFound[ord] {
 			v.note("contract %s has a loop #%d that does not exist in the function (ignored)", key, ord)
+		}
+	}
+	for _, cl := range fc.Of("assert") {
+		if cl.HasTag(prop) && !v.assertSites[cl.Ord] {
+			// the call site the assertion is attached to no longer exists: the clause cannot be checked
+			v.oblige("post", fmt.Sprintf("%s/assert#%d@%s", fc.Key, cl.Ord, cl.Site), cl.Tags, TTrue, TFalse, fmt.Sprintf("%s:%d", strings.TrimPrefix(cl.File, "/repo/"), cl.Line), "call site "+cl.Site+" not found: "+cl.Src)
 		}
 	}
 	res.Obls = v.obls
